@@ -49,6 +49,10 @@ where
   fn generate_replacement(&self, nm: &NodeMatch<D>) -> Underlying<D::Source> {
     (**self).generate_replacement(nm)
   }
+  // forward the range as well: a replacer may widen it (expandStart / expandEnd)
+  fn get_replaced_range(&self, nm: &NodeMatch<D>, matcher: impl Matcher<D::Lang>) -> Range<usize> {
+    (**self).get_replaced_range(nm, matcher)
+  }
 }
 
 impl<D: Doc> Replacer<D> for Node<'_, D> {
